@@ -420,7 +420,16 @@ pub fn cases(prop: &str, tier: &str, ctx: &mut Ctx, rng: &mut Rng) {
                 ctx.push_pair("permuted-subs", "same", (reg, &spec), (reg, &spec2));
                 // one source inserted twice with different targets, in both orders: the settings differ
                 // (last insert wins), the outputs follow the model
-                let p = paths[0].join("::");
+                // prefer a path that is the type of a field of another item (the outputs then differ)
+                let used = |p: &Vec<String>| reg.types.iter().any(|t| t.ty.path.segments.len() >= 2 && &t.ty.path.segments != p && {
+                    let fs: Vec<u32> = match &t.ty.type_def {
+                        scale_info::TypeDef::Composite(c) => c.fields.iter().map(|f| f.ty.id).collect(),
+                        scale_info::TypeDef::Variant(v) => v.variants.iter().flat_map(|x| x.fields.iter().map(|f| f.ty.id)).collect(),
+                        _ => vec![],
+                    };
+                    fs.iter().any(|i| reg.resolve(*i).map(|x| &x.path.segments == p).unwrap_or(false))
+                });
+                let p = paths.iter().find(|p| used(p)).unwrap_or(&paths[0]).join("::");
                 let mut sa = rand_settings(rng, reg, &no_subs);
                 let mut sb = sa.clone();
                 sa.ops.push(OpSpec::SubInsert(p.clone(), "::ext::First".into()));
